@@ -914,10 +914,15 @@ const char *talloc_set_name(const void *ptr, const char *fmt, ...)
 
 	t = ptr2hdr(ptr);
 	if (t) {
+		const char *name;
+
 		va_start(ap, fmt);
-		t->name = talloc_vasprintf(ptr, fmt, ap);
+		name = talloc_vasprintf(ptr, fmt, ap);
 		va_end(ap);
-		return t->name;
+		/* keep the old name when there is no memory for the new one */
+		if (name)
+			t->name = name;
+		return name;
 	}
 	return NULL;
 }
